@@ -56,6 +56,8 @@ BODIES = [
 # every expression form around the loop variable (the loop re-evaluates the same parse-tree nodes once per value)
 BODIES += [["G(sqrt(%s)) | 0" % V], ["G(sin(%s)+1, k=exp(-%s)) | 0" % (V, V)], ["G(%s**2, (%s), -%s) | 0" % (V, V, V)], ["G(2**%s, 1/(%s+1)) | 0" % (V, V)],
            ["G(A[%s]*2, k=[%s, A[%s]]) | 0" % (V, V, V)], ["G(log(%s+1)*%s) | 0" % (V, V), "H(arctan(%s)) | 1" % V]]
+# bodies of several statements of different syntactic kinds: differently named measurements, gates with and without arguments
+BODIES += [["MeasureX | %s" % V, "MeasureP | %s+2" % V, "G(%s) | %s" % (V, V), "MeasureHomodyne(phi=%s) | 0" % V], ["MeasureX | 0", "Vac | 1", "MeasureP(%s) | 1" % V, "MeasureFock | [0, 1]", "Vac | 2"]]
 BODIES_T = [["G(%s) | 0" % V, "H | 1", "K(%s*%s) | 2" % (V, V)], ["G(-%s) | [0, %s+2]" % (V, V)]]
 
 WRONG = [("int", "[0.5]"), ("int", "[1, 2.5]"), ("int", '["a"]'), ("int", "1, 0.5"), ("str", "[1]"), ("str", '["a", 2]'), ("float", '["a"]'),
